@@ -2,7 +2,7 @@
    write lands in exactly its own element regardless of how the threads interleave. *)
 From Coq Require Import ZArith List Lia.
 From MdspanVerif Require Import MachInt ListAux Layouts LayoutSpec Extents Convert View Submdspan SubSpec SubProofs
-     Concurrency ConcurrencyProofs.
+     MdArray Concurrency ConcurrencyProofs ConcurrencyArr.
 Import ListNotations.
 Local Open Scope Z_scope.
 
@@ -69,6 +69,27 @@ Theorem C19_pure_actions : forall (sh : shared) (a : taction) (c : caction) (st 
   root_index a = None -> compile sh a = Ok c -> cexec st (k, c) = st.
 Proof. exact pure_actions_no_effect. Qed.
 Print Assumptions C19_pure_actions.
+
+(* a shared *const mdarray*: a(i...) designates, for EVERY argument list, the cell (or the undefined
+   behaviour) that a pack-form read through to_mdspan() designates in the view layer ... *)
+Theorem C19_const_mdarray_cell : forall (a : mdarr) (pat : pattern) (args : list Z),
+  cell_of (arr_shared a pat) [] FPack args = rmap Z.to_nat (arr_offset a args).
+Proof. exact const_mdarray_cell. Qed.
+Print Assumptions C19_const_mdarray_cell.
+
+(* ... and any number of threads that read (any elements, not necessarily distinct ones — through the
+   mdarray, to_mdspan(), copies or sub-views of any depth) and observe are race-free, leave the container
+   unchanged in every interleaving, and each reads what it would read alone *)
+Theorem C19_const_mdarray_shared : forall (a : mdarr) (pat : pattern),
+  valid (ar_t a) (ar_map a) -> pat_ok (ar_t a) pat (exts (ar_map a)) ->
+  forall ps, Forall (Forall (wf_taction (arr_shared a pat))) ps -> read_only ps ->
+  exists cps, compile_all (arr_shared a pat) ps = Ok cps /\ race_free cps /\
+    forall st s, interleave cps s ->
+      cs_heap (crun s st) = cs_heap st /\
+      (forall k cp, nth_error cps k = Some cp -> (k < length (cs_logs st))%nat ->
+         nth k (cs_logs (crun s st)) [] = nth k (cs_logs st) [] ++ solo_log cp (cs_heap st)).
+Proof. exact const_mdarray_shared. Qed.
+Print Assumptions C19_const_mdarray_shared.
 
 (* non-vacuity: a 3x4 layout_right view shared by two threads; thread 0 writes row 0 directly and
    element (0,2) through the column sub-view submdspan(v, full_extent, 2); thread 1 writes row 1 through
